@@ -2348,6 +2348,30 @@ struct Exec {
         prop = plan.gets("prop", "C18");
         seed = plan.at("seed").as_hex();
         for (auto& m : plan.at("models").a) models.push_back(model::lib_from(m));
+        // reach probes: rare model features the generators aim for
+        for (auto& m : models)
+            for (auto& c : m.cells) {
+                for (auto& q : c.paths) {
+                    if (q.spine.size() > 8190) count("model_paths_above_8190_points");
+                    if (q.impl == 1) count(q.simple ? "model_simple_robustpaths" : "model_nonsimple_robustpaths");
+                    if (!q.simple && q.impl == 0) count("model_nonsimple_flexpaths");
+                }
+                for (auto& q : c.polys) {
+                    if (q.pts.size() > 8190) count("model_polygons_above_8190_points");
+                    if (q.hint == 1) count("model_circle_candidates");
+                    if (q.pts.size() == 3) count("model_triangles");
+                }
+                for (auto& q : c.refs) {
+                    model::dg_t w = 0;
+                    if (q.rep.type == model::REP_RECT) w = (model::dg_t)q.rep.cols * llabs(q.rep.sp.x);
+                    if (q.rep.type == model::REP_REGULAR)
+                        w = (model::dg_t)q.rep.cols * std::max(llabs(q.rep.v1.x), llabs(q.rep.v1.y));
+                    if (w > 21474836470LL) count("model_arrays_wider_than_2^31_grid_steps");
+                    if (llabs(q.origin.x) > 5000000000LL || llabs(q.origin.y) > 5000000000LL) count("model_references_beyond_5e8_grid_steps");
+                }
+                for (auto& q : c.labels)
+                    if (q.text.size() >= 126) count(q.text.size() > 60000 ? "model_labels_near_record_limit" : "model_labels_126_bytes_or_more");
+            }
         W->begin_run(plan.at("heap_seed").as_hex());
         gdstk_verif_oas_buffer_size = 0;
         if (plan.has("clock")) W->clock.now = W->clock.start = plan.geti("clock");
